@@ -143,6 +143,28 @@ func VerifC06_v2() {
 	verifrt.Reach("C06.v2.end")
 }
 
+// VerifC06_v2sizes: msg_key over larger plaintexts, at the sizes where fixed-size buffers end:
+// 2^k - 16, 2^k and 2^k + 16 bytes for k = 6..10 (quick) / 6..12 (thorough), both sides.
+func VerifC06_v2sizes() {
+	k := vkey()
+	top := 5
+	if verifrt.Tier() == 1 {
+		top = 7
+	}
+	n := (64 << verifrt.Fork("pow", top)) + 16*(verifrt.Fork("off", 3)-1)
+	plaintext := verifrt.NondetBytes("plaintext", n)
+	side := Side(verifrt.Fork("side", 2))
+	x := 0
+	if side == Server {
+		x = 8
+	}
+	large := sha256.Sum256(cat(sub(k.Value[:], 88+x, 32), plaintext))
+	var wantKey bin.Int128
+	copy(wantKey[:], large[8:24])
+	verifrt.Assert(MessageKey(k.Value, plaintext, side) == wantKey, "C06.v2sizes.msgkey")
+	verifrt.Reach("C06.v2sizes.end")
+}
+
 // VerifC06_v1: MessageKeyV1, KeysV1 and OldKeys equal the MTProto 1.0 definitions.
 func VerifC06_v1() {
 	k := vkey()
